@@ -506,3 +506,308 @@ def gen_program(rng, cpp, layout, stress=False):
     g = Gen(rng, cpp, layout, stress)
     text = g.program()
     return dict(lang="cpp" if cpp else "c", layout=layout, stress=stress, text=text, features=sorted(g.features))
+
+
+# ---------------------------------------------------------------------------------------------------------
+# clang: text dump (what cppcheck --clang consumes) and JSON dump (ground truth), cached by program hash
+# ---------------------------------------------------------------------------------------------------------
+def src_name(lang):
+    return "t.c" if lang == "c" else "t.cpp"
+
+
+def linecol(text, off):
+    line = text.count("\n", 0, off) + 1
+    col = off - (text.rfind("\n", 0, off) + 1) + 1
+    return line, col
+
+
+VARKINDS = ("VarDecl", "ParmVarDecl", "FieldDecl")
+FUNKINDS = ("FunctionDecl", "CXXMethodDecl")
+DECLKINDS = VARKINDS + FUNKINDS + ("EnumConstantDecl",)
+
+
+def truth_of(text, js):
+    """from clang's JSON dump: declarations (by id) and uses (DeclRefExpr / MemberExpr) with the offsets of their identifiers"""
+    decls, uses = {}, []
+
+    def off(loc):
+        if not isinstance(loc, dict):
+            return None
+        if "offset" in loc:
+            return loc["offset"]
+        for k in ("expansionLoc", "spellingLoc"):
+            if k in loc and "offset" in loc[k]:
+                return loc[k]["offset"]
+        return None
+
+    def walk(n, anc, func):
+        k = n.get("kind")
+        rng = n.get("range") or {}
+        b = off(rng.get("begin"))
+        e = off(rng.get("end"))
+        if k in DECLKINDS and n.get("name") and not n.get("isImplicit") and off(n.get("loc")) is not None and b is not None:
+            decls[n["id"]] = dict(kind=k, name=n["name"], off=off(n["loc"]), begin=b, prev=n.get("previousDecl"),
+                                  func=func, anc=list(anc))
+        if k == "DeclRefExpr" and n.get("referencedDecl") and e is not None:
+            rd = n["referencedDecl"]
+            uses.append(dict(target=rd.get("id"), name=rd.get("name"), tkind=rd.get("kind"), off=e, begin=b, anc=list(anc), via="ref"))
+        if k == "MemberExpr" and n.get("referencedMemberDecl") and e is not None:
+            uses.append(dict(target=n["referencedMemberDecl"], name=n.get("name"), tkind=None, off=e, begin=b, anc=list(anc), via="member"))
+        anc2 = anc + [b] if b is not None else anc
+        func2 = n["id"] if k in FUNKINDS + ("CXXConstructorDecl", "CXXDestructorDecl") else func
+        for c in n.get("inner", []):
+            walk(c, anc2, func2)
+
+    walk(js, [], None)
+    for u in uses:
+        if u["tkind"] is None and u["target"] in decls:
+            u["tkind"] = decls[u["target"]]["kind"]
+    funcprev = {}
+    for i, d in decls.items():
+        if d["kind"] in FUNKINDS:
+            funcprev[i] = bool(d["prev"])
+
+    def lc(o):
+        return list(linecol(text, o))
+
+    out_d = {}
+    for i, d in decls.items():
+        out_d[i] = dict(kind=d["kind"], name=d["name"], off=d["off"], begin=lc(d["begin"]), prev=bool(d["prev"]),
+                        funcprev=bool(d["func"] and funcprev.get(d["func"])), anclines=sorted(set(lc(a)[0] for a in d["anc"])))
+    out_u = [dict(target=u["target"], name=u["name"], tkind=u["tkind"], off=u["off"], begin=lc(u["begin"]) if u["begin"] is not None else None,
+                  via=u["via"], anclines=sorted(set(lc(a)[0] for a in u["anc"]))) for u in uses]
+    return dict(decls=out_d, uses=out_u)
+
+
+def clang_case(case):
+    """fills case['dump'] (text dump) and case['truth']; cached"""
+    key = hashlib.sha1((case["lang"] + "\0" + case["text"]).encode()).hexdigest()
+    p = os.path.join(CACHE, key + ".json")
+    if os.path.exists(p):
+        try:
+            d = json.load(open(p))
+            case.update(dump=d["dump"], truth=d["truth"], clang_ok=d["clang_ok"], cached=True)
+            return case
+        except Exception:
+            pass
+    os.makedirs(CACHE, exist_ok=True)
+    wd = os.path.join(CACHE, "w-" + key + "-%d" % os.getpid())
+    os.makedirs(wd, exist_ok=True)
+    try:
+        fn = src_name(case["lang"])
+        open(os.path.join(wd, fn), "w").write(case["text"])
+        r1 = subprocess.run([CLANG, "-fsyntax-only", "-Xclang", "-ast-dump", "-fno-color-diagnostics", fn], cwd=wd, stdout=subprocess.PIPE,
+                            stderr=subprocess.PIPE, text=True, errors="replace", timeout=120)
+        r2 = subprocess.run([CLANG, "-fsyntax-only", "-Xclang", "-ast-dump=json", "-fno-color-diagnostics", fn], cwd=wd, stdout=subprocess.PIPE,
+                            stderr=subprocess.PIPE, text=True, errors="replace", timeout=120)
+        ok = r1.returncode == 0 and r2.returncode == 0
+        truth = None
+        if ok:
+            try:
+                truth = truth_of(case["text"], json.loads(r2.stdout))
+            except Exception as ex:
+                ok = False
+        d = dict(dump=r1.stdout, truth=truth, clang_ok=ok, stderr=(r1.stderr or "")[-400:])
+        tmp = p + ".tmp%d" % os.getpid()
+        json.dump(d, open(tmp, "w"))
+        os.replace(tmp, p)
+        case.update(dump=d["dump"], truth=truth, clang_ok=ok, cached=False)
+        return case
+    finally:
+        import shutil
+        shutil.rmtree(wd, ignore_errors=True)
+
+
+def clang_all(cases, workers=8):
+    with concurrent.futures.ThreadPoolExecutor(workers) as ex:
+        return list(ex.map(clang_case, cases))
+
+
+# ---------------------------------------------------------------------------------------------------------
+# running the line-protocol executables; a crash of the harness is an outcome of the op it happened on
+# ---------------------------------------------------------------------------------------------------------
+def run_robust(exe, ops, timeout=900):
+    out = []
+    i = 0
+    while i < len(ops):
+        rc, o, err = core.run_lines(exe, [], ops[i:], timeout=timeout)
+        out += o
+        i = len(out)
+        if i < len(ops):
+            out.append("CRASH rc=%s %s" % (rc, (err or "")[-200:].replace("\n", " | ")))
+            i += 1
+    return out
+
+
+def parse_dump_line(line):
+    """harness/driver `dump` output -> list of token dicts, or None when the import did not complete"""
+    if not line.startswith("ok "):
+        return None
+    toks = []
+    for f in line.split(" | ", 1)[1].split(" ") if " | " in line else []:
+        q = f.split(":")
+
+        def ix(s):
+            return None if s == "-" else int(s)
+        toks.append(dict(idx=int(q[0]), str=core.unhx(q[1]).decode("latin-1"), file=int(q[2]), line=int(q[3]), col=int(q[4]), link=ix(q[5]),
+                         parent=ix(q[6]), op1=ix(q[7]), op2=ix(q[8]), varId=int(q[9]), varDef=ix(q[10]), funDef=ix(q[11]), enumDef=ix(q[12])))
+    return toks
+
+
+# ---------------------------------------------------------------------------------------------------------
+# P_impl
+# ---------------------------------------------------------------------------------------------------------
+def inv_problems(toks):
+    """(1) AstStore invariant (acyclic, operand's parent points back, a child is listed, op1 != op2) and links (symmetric, nested,
+    an opening bracket before its closing bracket of the same kind, every bracket linked)"""
+    n = len(toks)
+    bad = []
+    for t in toks:
+        i = t["idx"]
+        for k in ("op1", "op2"):
+            c = t[k]
+            if c is not None and toks[c]["parent"] != i:
+                bad.append(("ast-opback", "token %d %r: %s=%d whose parent is %r" % (i, t["str"], k, c, toks[c]["parent"])))
+        if t["op1"] is not None and t["op1"] == t["op2"]:
+            bad.append(("ast-distinct", "token %d %r: op1 == op2" % (i, t["str"])))
+        p = t["parent"]
+        if p is not None and toks[p]["op1"] != i and toks[p]["op2"] != i:
+            bad.append(("ast-listed", "token %d %r: parent %d does not list it" % (i, t["str"], p)))
+        # acyclic
+        seen, c = 0, t["parent"]
+        while c is not None and seen <= n:
+            c = toks[c]["parent"]
+            seen += 1
+        if seen > n:
+            bad.append(("ast-cycle", "token %d %r is on a parent cycle" % (i, t["str"])))
+    pairs = {"(": ")", "[": "]", "{": "}"}
+    stack = []
+    for t in toks:
+        i, s, l = t["idx"], t["str"], t["link"]
+        if l is not None and toks[l]["link"] != i:
+            bad.append(("link-asym", "token %d %r links to %d which links to %r" % (i, s, l, toks[l]["link"])))
+        if s in pairs:
+            if l is None or l <= i or toks[l]["str"] != pairs[s]:
+                bad.append(("link-kind", "opening %r at %d links to %r" % (s, i, l)))
+            stack.append(i)
+        elif s in pairs.values():
+            if not stack or toks[stack[-1]]["link"] != i:
+                bad.append(("link-nesting", "closing %r at %d does not close the innermost open bracket %r" % (s, i, stack[-1] if stack else None)))
+            if stack:
+                stack.pop()
+        elif l is not None:
+            bad.append(("link-nonbracket", "token %d %r has a link" % (i, s)))
+    if stack:
+        bad.append(("link-nesting", "unclosed brackets %r" % stack[:3]))
+    return bad
+
+
+ENTITY = re.compile(r"^(gv|gs|ga|lv|la|ls|lp|lq|li|pa|fm|fn|me|EK)\d+$")
+
+
+def align(case, toks):
+    """pair the k-th token spelled N with the k-th source occurrence (declaration name or use) of entity N.
+    Returns (pairs, unaligned names).  pairs: list of (token, occ) with occ = dict(role 'D'|'U', id / target, ...)"""
+    tr = case["truth"]
+    occ = {}
+    for i, d in tr["decls"].items():
+        if ENTITY.match(d["name"] or ""):
+            occ.setdefault(d["name"], []).append(dict(role="D", id=i, off=d["off"], d=d))
+    for u in tr["uses"]:
+        if u["name"] and ENTITY.match(u["name"]) and u["target"] in tr["decls"]:
+            occ.setdefault(u["name"], []).append(dict(role="U", id=u["target"], off=u["off"], u=u))
+    bystr = {}
+    for t in toks:
+        if ENTITY.match(t["str"]):
+            bystr.setdefault(t["str"], []).append(t)
+    pairs, unaligned = [], []
+    for name, os_ in occ.items():
+        os_.sort(key=lambda o: (o["off"], o["role"]))
+        ts = bystr.get(name, [])
+        if len(ts) != len(os_):
+            unaligned.append((name, len(os_), len(ts)))
+            continue
+        pairs += list(zip(ts, os_))
+    return pairs, unaligned
+
+
+def link_problems(case, toks):
+    """(2) every variable use is linked to the declaration clang names; (4) lines/columns of the aligned name tokens.
+    Returns list of (key, text, detail dict)"""
+    tr = case["truth"]
+    pairs, unaligned = align(case, toks)
+    tok_of_decl = {}
+    for t, o in pairs:
+        if o["role"] == "D":
+            tok_of_decl[o["id"]] = t
+    bad = []
+    stats = dict(var_uses=0, var_uses_linked=0, func_uses=0, enum_uses=0, decls=0, unaligned=len(unaligned), line_checked=0)
+    ids_seen = {}
+    for t, o in pairs:
+        d = tr["decls"][o["id"]]
+        kind = d["kind"]
+        where = "%s %r (source %d:%d)" % ("declaration of" if o["role"] == "D" else "use of", t["str"], *linecol(case["text"], o["off"]))
+        # ---- locations: the node's begin as clang means it ----
+        exp = d["begin"] if o["role"] == "D" else o["u"]["begin"]
+        anclines = d["anclines"] if o["role"] == "D" else o["u"]["anclines"]
+        if exp:
+            stats["line_checked"] += 1
+            if t["line"] != exp[0]:
+                key = "loc-line-inherited" if (t["line"] in anclines or t["line"] < exp[0]) else "loc-line-other"
+                bad.append((key, "%s: imported at line %d, clang: line %d" % (where, t["line"], exp[0]), dict(tok=t["idx"])))
+            elif t["col"] != exp[1]:
+                bad.append(("loc-col", "%s: imported at column %d, clang: column %d" % (where, t["col"], exp[1]), dict(tok=t["idx"])))
+        # ---- links ----
+        if kind in VARKINDS:
+            if o["role"] == "D":
+                stats["decls"] += 1
+                if t["varDef"] != t["idx"] or t["varId"] == 0:
+                    key = "param-of-redeclared-function" if (kind == "ParmVarDecl" and d["funcprev"]) else "decl-unlinked"
+                    bad.append((key, "%s: varId=%d variable()->nameToken()=%r" % (where, t["varId"], t["varDef"]), dict(tok=t["idx"])))
+                else:
+                    if t["varId"] in ids_seen and ids_seen[t["varId"]] != o["id"]:
+                        bad.append(("varid-shared", "%s: varId %d also names another declaration" % (where, t["varId"]), dict(tok=t["idx"])))
+                    ids_seen[t["varId"]] = o["id"]
+            else:
+                stats["var_uses"] += 1
+                td = tok_of_decl.get(o["id"])
+                if td is None:
+                    continue
+                if t["varDef"] == td["idx"] and t["varId"] == td["varId"] and t["varId"] != 0:
+                    stats["var_uses_linked"] += 1
+                    continue
+                if kind == "ParmVarDecl" and d["funcprev"] and t["varDef"] is None:
+                    key = "param-of-redeclared-function"
+                elif t["varDef"] is None and t["varId"] == td["varId"] and t["varId"] != 0 and in_sizeof(toks, t["idx"]):
+                    key = "use-inside-sizeof"
+                elif t["varDef"] is None:
+                    key = "use-unlinked"
+                else:
+                    key = "use-wrong-decl"
+                bad.append((key, "%s: clang: declaration at %d:%d; imported: varId=%d variable()->nameToken()=%s (expected token %d, varId %d)" %
+                            (where, d["begin"][0], d["begin"][1], t["varId"],
+                             "none" if t["varDef"] is None else "token %d %r" % (t["varDef"], toks[t["varDef"]]["str"]), td["idx"], td["varId"]),
+                            dict(tok=t["idx"])))
+        elif kind in FUNKINDS and o["role"] == "U":
+            stats["func_uses"] += 1
+            ok = t["funDef"] is not None and toks[t["funDef"]]["str"] == t["str"]
+            if not ok:
+                stats["func_uses_unlinked"] = stats.get("func_uses_unlinked", 0) + 1
+        elif kind == "EnumConstantDecl" and o["role"] == "U":
+            stats["enum_uses"] += 1
+            td = tok_of_decl.get(o["id"])
+            if td is not None and t["enumDef"] != td["idx"]:
+                stats["enum_uses_unlinked"] = stats.get("enum_uses_unlinked", 0) + 1
+    return bad, stats, unaligned
+
+
+def in_sizeof(toks, i):
+    """token i lies between `sizeof (` and the next `)`"""
+    j = i - 1
+    while j >= 1:
+        if toks[j]["str"] == ")":
+            return False
+        if toks[j]["str"] == "(" and toks[j - 1]["str"] == "sizeof":
+            return True
+        j -= 1
+    return False
